@@ -17,7 +17,7 @@ fn by_ctx(hs: &[Heading]) -> BTreeMap<Vec<String>, Vec<u8>> {
 }
 
 pub fn check_doc(key: &str, text: &str) -> Option<String> {
-    let dir = Key::from_file_name(key).parent();
+    let dir = crate::oracle::md::dir_of(key);
     let out = c01::format_single(key, text, "").ok()?;
     let a = md::read(text, &dir);
     let b = md::read(&out, &dir);
@@ -135,7 +135,7 @@ pub fn run(ctx: &Ctx, model: &mut Model, rep: &mut Report) {
         if *corr {
             let h = History { ext: String::new(), import: vec![(key.clone(), text.clone())], steps: vec![] };
             if let Some(reply) = hist::model_reply_parts(model, &h, &["md"]) {
-                let dir = Key::from_file_name(key).parent();
+                let dir = crate::oracle::md::dir_of(key);
                 if let (Some((_, Ok(mt))), Ok(rt)) = (hist::model_md(&reply, 0).first().cloned(), c01::format_single(key, text, "")) {
                     rep.correspondence_cases += 1;
                     let (hm, hr) = (md::read(&mt, &dir).headings, md::read(&rt, &dir).headings);
